@@ -36,7 +36,7 @@ SubRows(k) == CASE k = "source" -> SourceProps [] k = "endpoints" -> EndpointsPr
 RECURSIVE NFItem(_), NFProp(_, _), NFMap(_, _)
 NFItem(v) ==
   CASE v.k = "nil" -> v
-    [] v.k = "iri" -> v
+    [] v.k = "iri" -> Iri(v.iri)          \* (an IRI held by pointer is the same IRI)
     [] v.k = "iris" -> ListOf(MapSeq(v.e, Iri))
     [] v.k = "list" -> ListOf([i \in 1..Len(v.e) |-> NFItem(v.e[i])])
     [] v.k = "obj" -> [k |-> "obj", g |-> v.g, ptr |-> TRUE, p |-> NFMap(Props(v.g), v.p)]
@@ -54,7 +54,7 @@ NFProp(kind, x) ==
 RECURSIVE GFItem(_), GFProp(_, _), GFMap(_, _)
 GFItem(v) ==
   CASE v.k = "nil" -> v
-    [] v.k = "iri" -> v
+    [] v.k = "iri" -> Iri(v.iri)
     [] v.k = "iris" -> v
     [] v.k = "list" -> ListOf([i \in 1..Len(v.e) |-> GFItem(v.e[i])])
     [] v.k = "obj" -> [k |-> "obj", g |-> v.g, ptr |-> TRUE, p |-> GFMap(Props(v.g), v.p)]
